@@ -434,7 +434,10 @@ static inline void ABTI_mem_free_thread(ABTI_global *p_global,
         void *p_stacktop = ABTD_ythread_context_get_stacktop(&p_ythread->ctx);
         size_t stacksize = ABTD_ythread_context_get_stacksize(&p_ythread->ctx);
         ABTI_mem_unregister_stack(p_global, p_stacktop, stacksize, ABT_TRUE);
-        void *p_stack = (void *)(((char *)p_stacktop) - stacksize);
+        void *p_stack =
+            (void *)(((char *)p_stacktop) -
+                     ABTU_roundup_size(stacksize,
+                                       ABT_CONFIG_STATIC_CACHELINE_SIZE));
         ABTU_free(p_stack);
     } else if (p_thread->type &
                ABTI_THREAD_TYPE_MEM_MALLOC_DESC_MEMPOOL_LAZY_STACK) {
